@@ -27,6 +27,8 @@ OBLIGATIONS = [
     "NanoVerif.C13.decOK_trivial",
     "NanoVerif.TrProofs.map_font_space_to_viewbox_eq",
     "NanoVerif.TrProofs.map_font_space_to_viewbox_inverts",
+    "NanoVerif.ColrColor.alpha_is_product",
+    "NanoVerif.ColrColor.palette_count_irrelevant",
 ]
 DESIGN_REF = "DESIGN.md §5 C13"
 LEVEL_TEXT = ("Proof of the recursive walk for the whole supported grammar + per-step theorems + sampling. Proved in Lean: "
@@ -567,6 +569,46 @@ def suite_unsupported(ctx, res):
             res.add_cex(f"unsupported paint ({name}) was converted silently (no error, no warning)", {"paint": paint}, {"site": "colr2svg-silent", "kind": name})
 
 
+def suite_color_model(ctx, res, n):
+    """Tie for Model/ColrColor.lean (`alpha_is_product`, `palette_count_irrelevant`): the real `colr_to_svg._color` on fonts with one or two
+    palettes whose entries may be translucent — every palette index, the foreground index, an index outside the palette; paint alphas 1, 1/2, 1/4."""
+    from fractions import Fraction as F
+    from fontTools.colorLib import builder
+    from nanoemoji import colr_to_svg
+    from harness.common import fr
+
+    rng = ctx.rng
+    ops, reals = [], []
+    for _ in range(n):
+        npal = rng.choice([1, 2])
+        size = rng.randint(1, 5)
+        pal0 = [(rng.randrange(256), rng.randrange(256), rng.randrange(256), rng.choice([255, 255, 128, 64, 0, 204])) for _ in range(size)]
+        pals = [pal0] + ([[(b, r, g, a) for r, g, b, a in pal0]] if npal == 2 else [])
+        font = build_base_font()
+        font["CPAL"] = builder.buildCPAL([[(r / 255, g / 255, b / 255, a / 255) for r, g, b, a in p] for p in pals])
+        idx = rng.choice(list(range(size)) + [0xFFFF, size, size + 3])
+        alpha = rng.choice([F(1), F(1, 2), F(1, 4)])
+        try:
+            c = colr_to_svg._color(font, idx, float(alpha))
+            real = {"r": "current", "alpha": float(c.alpha)} if c.is_current_color() else {"r": [c.red, c.green, c.blue], "alpha": float(c.alpha), "slot": c.palette_index}
+        except IndexError:
+            real = {"r": "IndexError"}
+        ops.append({"op": "colr-color", "palette": [[str(v) for v in e] for e in pal0], "palettes": str(npal), "idx": str(idx), "alpha": fr(alpha)})
+        reals.append(real)
+    for op, real, m in zip(ops, reals, ctx.driver.run(ops)):
+        res.count(key=("colr-color", stable_hash(op)), nontrivial=op["palettes"] == "2" or real.get("alpha", 1) != 1)
+        res.stat("colr-color:" + (real["r"] if isinstance(real["r"], str) else "entry"))
+        got = dict(m)
+        if "alpha" in got:
+            got["alpha"] = float(F(got["alpha"]))
+        if isinstance(got.get("r"), list):
+            got["r"] = [int(v) for v in got["r"]]
+            got["slot"] = None if got.get("slot") is None else int(got["slot"])
+        ok = got.get("r") == real["r"] and abs(got.get("alpha", 0) - real.get("alpha", 0)) < 1e-9 and got.get("slot") == real.get("slot")
+        if not ok:
+            res.add_tie_break("colr_to_svg._color vs Model colorOf", op, got, real)
+
+
 def run(ctx, res):
     nano.init()
     res.rule = ("paint graphs generated over the property's grammar, depth <= 6, glyph A may reference glyphs B/C through PaintColrGlyph; fonts compiled with "
@@ -574,6 +616,7 @@ def run(ctx, res):
                 "+ layer centres; non-trivial = every font")
     suite_unsupported(ctx, res)
     suite_tosvg_model(ctx, res, ctx.budget(60, 1500))
+    suite_color_model(ctx, res, ctx.budget(60, 1200))
     n = ctx.budget(30, 700)
     for k in range(n):
         version = 1 if k % 5 else 0
